@@ -33,7 +33,7 @@ func vfC05MvtFeature_N(tier int) int {
 	if tier == 0 {
 		return 2 * 6
 	}
-	return 2 * 9
+	return 2 * 8
 }
 func vfC05MvtFeature_Label(c int) string {
 	return "prefix=" + strconv.Itoa(c%2) + " body=" + strconv.Itoa(c/2)
@@ -61,7 +61,7 @@ func vfC05MvtLayer_N(tier int) int {
 	if tier == 0 {
 		return 5
 	}
-	return 8
+	return 7 // body=7: 145k paths, then an executor limitation (a symbolic value where a uint32 is expected); not registered
 }
 func vfC05MvtLayer_Label(c int) string { return "body=" + strconv.Itoa(c) }
 
